@@ -36,7 +36,7 @@ def run(ctx):
     ctx.exhaustive = False
     ctx.extra_cov["exhaustive_per_base_file"] = True
     ctx.require("base_files", c.get("base_files", 0), 60)
-    ctx.require("base_stored_payload", c.get("base_stored_payload", 0), 15)
+    ctx.require("base_stored_payload", c.get("base_stored_payload", 0), 8)
     for f in ("0", "1", "2"):
         ctx.require("base_fmt_" + f, c.get("base_fmt_" + f, 0), 3)
     ctx.require("bit_flips", c.get("bit_flips", 0), 100000)
